@@ -47,6 +47,9 @@ type TaskP struct {
 	Instr    bool   `json:"instr,omitempty"`
 	Form     int    `json:"form,omitempty"`
 	WrapFn   bool   `json:"wrapfn,omitempty"`
+	// AutoInstr is set by the printer: with -auto-instrument the generator
+	// instruments exactly the tasks listed after cff.InstrumentFlow.
+	AutoInstr bool `json:"auto_instr,omitempty"`
 }
 
 // Concurrency / ContinueOnError argument modes.
@@ -132,6 +135,8 @@ type Prog struct {
 	ModifierOK bool `json:"modifier_ok,omitempty"`
 	// AutoInstr: the package is generated with -auto-instrument.
 	AutoInstr bool `json:"auto_instr,omitempty"`
+	// PlainNames: user variables are not named like generated identifiers.
+	PlainNames bool `json:"plain_names,omitempty"`
 }
 
 // Sentinel is pre-stored in every Results target.
